@@ -45,6 +45,7 @@ type Spec struct {
 	DFS     bool
 	Timeout time.Duration
 	Heap    string
+	noRetry bool
 }
 
 func encode(lines []any) ([]byte, error) {
@@ -66,6 +67,9 @@ func Validate(sp Spec, prelude []any, traces []Trace, maxRejects int) (*Outcome,
 	out := &Outcome{Traces: len(traces)}
 	if sp.Timeout == 0 {
 		sp.Timeout = 10 * time.Minute
+	}
+	if sp.Heap == "" {
+		sp.Heap = "4g" // trace validation keeps few states; a small heap leaves room for concurrent runs
 	}
 	start := 0
 	t0 := time.Now()
@@ -100,7 +104,27 @@ func Validate(sp Spec, prelude []any, traces []Trace, maxRejects int) (*Outcome,
 			break
 		}
 		if res.TimedOut {
-			return out, fmt.Errorf("TLC timed out validating traces (%s)", sp.Module)
+			// one more attempt in smaller pieces (a loaded machine, or one pathological trace)
+			rest := traces[start:]
+			if sp.noRetry || len(rest) < 2 {
+				return out, fmt.Errorf("TLC timed out validating traces (%s)", sp.Module)
+			}
+			sp2 := sp
+			sp2.noRetry = true
+			o2, err := ValidateChunks(sp2, prelude, rest, maxRejects-len(out.Rejects), (len(rest)+5)/6, 3)
+			if o2 != nil {
+				out.Lines += o2.Lines
+				out.Accepted += o2.Accepted
+				out.TLCStates += o2.TLCStates
+				out.TLCTrans += o2.TLCTrans
+				out.Runs += o2.Runs
+				for _, rj := range o2.Rejects {
+					rj.TraceIdx += start
+					out.Rejects = append(out.Rejects, rj)
+				}
+			}
+			out.Wall = time.Since(t0).Seconds()
+			return out, err
 		}
 		if !res.PropertyViolated || res.HWM < 1 || res.HWM > int64(len(lines)) {
 			return out, fmt.Errorf("TLC failed on trace spec %s (exit %d, hwm %d):\n%s", sp.Module, res.ExitCode, res.HWM, res.Tail)
